@@ -251,6 +251,7 @@ func stability(run *lib.Run, rng *lib.Rand, o lib.Opts) {
 		cur = now
 	}
 	op := func(what string, r dv.Resp) {
+		beat()
 		st.Ops = append(st.Ops, fmt.Sprintf("%s -> %d", what, r.Status))
 	}
 	open := []string{uuidU}       // open nodes
